@@ -100,7 +100,12 @@ def fixedPartsAsModelled : Bool :=
     ["frontier := make([]*ssa.Function, 0)"],
     ["range entryPoints", "frontier = append(frontier, f)"],
     ["range entryPoints", "reachable[f] = true"],
-    ["reachable := make(map[*ssa.Function]bool, len(allFunctions))"]]
+    ["reachable := make(map[*ssa.Function]bool, len(allFunctions))"]] &&
+  -- the dependencies tool counts a function as used iff FindReachable (default roots) reports it
+  dependencyPaths == [
+    ["range allFunctions", "ok || dc.IncludeStdlib", "!(isReachable{reachable[f]})", "entry.unreachableLocs += locs"],
+    ["range allFunctions", "ok || dc.IncludeStdlib", "isReachable{reachable[f]}", "entry.reachableLocs += locs"],
+    ["reachable := reachability.FindReachable(state, false, false, dependencyGraph)"]]
 
 /-- every regenerated path is one the model interprets -/
 def genKnown : Bool :=
